@@ -100,6 +100,7 @@ ITEMS = [
          "to_index": {"params": {"lit": INT}},
          "indices": {"params": {"pattern": TList(TOpt(INT))}, "vararg": "pattern"},
          "__call__": {"params": {"index": TList(TOpt(INT))}, "vararg": "index"},
+         "__getitem__": {"params": {"choices": INT}, "lean": "getitem"},
      }},
     {"file": VARS, "class": "BinaryMappingVariables", "property": "C11",
      "methods": {
@@ -203,7 +204,9 @@ ITEMS = [
          "_add_variable_group": [
              {"lean": "add_variable_group_unary", "params": {"vg": TObj("UnaryMappingVariables")}},
              {"lean": "add_variable_group_binary", "params": {"vg": TObj("BinaryMappingVariables")}},
+             {"lean": "add_variable_group_block", "params": {"vg": TObj("BlockOfVariables")}},
          ],
+         "new_block": {"params": {"ranges": TList(INT), "label": ERASED}, "vararg": "ranges"},
          "new_binary_mapping": {"params": {"n": INT, "m": INT, "label": ERASED}},
          "new_mapping": {"params": {"n": INT, "m": INT, "label": ERASED}},
          "force_complete_mapping": [{"lean": "force_complete_mapping_unary", "params": {"f": TObj("UnaryMappingVariables")}},
@@ -217,4 +220,6 @@ ITEMS = [
      "params": {"pigeons": INT, "holes": INT, "functional": BOOL, "onto": BOOL, "formula_class": TEffectClass("Formula")}},
     {"file": "cnfgen/families/pigeonhole.py", "function": "BinaryPigeonholePrinciple", "property": "C01",
      "params": {"pigeons": INT, "holes": INT, "formula_class": TEffectClass("Formula")}},
+    {"file": "cnfgen/families/pigeonhole.py", "function": "RelativizedPigeonholePrinciple", "property": "C01",
+     "params": {"pigeons": INT, "resting_places": INT, "holes": INT, "formula_class": TEffectClass("Formula")}},
 ]
